@@ -7,6 +7,10 @@ void fsvn_thrown(void);
 #endif
 static void fsv_throw(void){
 #ifdef __CPROVER__
+#ifdef WITNESS
+  /* vacuity twin of a harness that expects the error: reaching the throw is its end of path */
+  __CPROVER_assert(!fsv_expect_throw, "FSV-WITNESS: expected throw reachable");
+#endif
   __CPROVER_assert(fsv_expect_throw, "FSV: unexpected C++ exception thrown");
   __CPROVER_assume(0);
 #else
